@@ -31,7 +31,9 @@ impl Axecutor {
                 (1, 0)
             }; (set: FLAGS_UNAFFECTED; clear: 0)]
         } else {
-            Ok(())
+            calculate_rm![u8f; self; i; |_: u8| {
+                (0, 0)
+            }; (set: FLAGS_UNAFFECTED; clear: 0)]
         }
     }
 }
